@@ -516,7 +516,7 @@ def rewrite_body(text, rules_log, intended_panics=False, keep_asserts=False):
     return "".join(x.text for x in out)
 
 
-_SAFE_CALLS = {"local_addr", "name", "len", "kind", "display", "idx", "token"}
+_SAFE_CALLS = {"local_addr", "name", "len", "kind", "display", "idx", "token", "hostname", "peer_addr", "port", "as_ref", "unwrap", "addrs"}
 
 
 def _check_log_args(args):
@@ -782,6 +782,8 @@ R9_RULES = [
             "let mut r9_n: usize = 0; while r9_n < $$e.len() { let $x = &mut $$e[r9_n]; r9_n = r9_n + 1; {", "} ) ;", "} }"),
     ("R9g", "$$e . iter ( ) . any ( | $x | $$c )",
             "{ let mut r9_any = false; let mut r9_k: usize = 0; while r9_k < $$e.len() && !r9_any { let $x = &$$e[r9_k]; if $$c { r9_any = true; } r9_k = r9_k + 1; } r9_any }"),
+    ("R9i", "$$e . as_mut ( ) . and_then ( | $x | $x . pop_front ( ) )",
+            "(match $$e.as_mut() { Some($x) => $x.pop_front(), None => None })"),
     ("R9h", "for $x in $$e . values ( ) {",
             "let mut r9_n: usize = 0; let r9_len: usize = $$e.len(); while r9_n < r9_len { let $x = $$e.nth_value_mut(r9_n); r9_n = r9_n + 1;"),
     ("R9f", "for $x in $$e . iter ( ) {",
